@@ -679,7 +679,8 @@ class Terms:
             if is_dict:
                 self._raise_dict(st, acc, pre_env, pre_dirty, env, dirty)
                 continue
-            if not (isinstance(init, ast.List) and not init.elts):
+            if not ((isinstance(init, ast.List) and not init.elts) or (
+                    isinstance(init, ast.Call) and isinstance(init.func, ast.Name) and init.func.id == "list" and not init.args and not init.keywords)):
                 continue
             tnames = {n.id for n in ast.walk(st.target) if isinstance(n, ast.Name)}
             self._skip = tnames | set(pre_env)
@@ -738,7 +739,15 @@ class Terms:
 
         def rec(stmts, conds):
             for s in stmts:
-                if isinstance(s, ast.Assign) and all(isinstance(t, ast.Name) and t.id != acc for t in s.targets):
+                if isinstance(s, ast.If) and not s.orelse and len(s.body) == 1 and isinstance(s.body[0], ast.Continue) and stmts is body \
+                        and not any(isinstance(n_, ast.Name) and n_.id == acc for n_ in ast.walk(s.test)):
+                    # `if C: continue` guards everything that follows in this iteration
+                    conds.append(ast.UnaryOp(op=ast.Not(), operand=s.test))
+                    continue
+                if not any(isinstance(n_, ast.Name) and n_.id == acc for n_ in ast.walk(s)):
+                    # the statement does not touch the accumulator: it cannot change its value
+                    if any(isinstance(n_, (ast.Break, ast.Continue, ast.Return)) for n_ in ast.walk(s)) and not isinstance(s, (ast.For, ast.While)):
+                        return False
                     continue
                 if isinstance(s, ast.Expr) and isinstance(s.value, ast.Call) and isinstance(s.value.func, ast.Attribute) \
                         and isinstance(s.value.func.value, ast.Name) and s.value.func.value.id == acc:
@@ -875,3 +884,76 @@ class PathEnv(Terms):
         """expr with the locals as they are before the i-th event of the path"""
         env, dirty = self.at_event[i]
         return self.expand(expr, env=env, dirty=dirty, skip=skip)
+
+
+def fuse(term):
+    """[E(x) for x in [F(y) for y in I if D(y)] if C(x)]  ->  [E(F(y)) for y in I if D(y) if C(F(y))] (recursively)"""
+    class F(ast.NodeTransformer):
+        def visit_ListComp(self, n):
+            n = self.generic_visit(n)
+            for g in n.generators:
+                # for i, v in enumerate(X)  ->  for i in range(len(X)) with v := X[i]
+                it = g.iter
+                if isinstance(it, ast.Call) and isinstance(it.func, ast.Name) and it.func.id == "enumerate" and len(it.args) == 1 and not it.keywords \
+                        and isinstance(g.target, ast.Tuple) and len(g.target.elts) == 2 and all(isinstance(t, ast.Name) for t in g.target.elts) \
+                        and access_path(it.args[0]) is not None:
+                    i_, v_ = g.target.elts[0].id, g.target.elts[1].id
+                    el = ast.Subscript(value=copy.deepcopy(it.args[0]), slice=ast.Name(id=i_, ctx=ast.Load()), ctx=ast.Load())
+                    sub = _Subst({v_: el}, set())
+                    n.elt = sub.visit(n.elt)
+                    g.ifs = [sub.visit(c) for c in g.ifs]
+                    g.target = ast.Name(id=i_, ctx=ast.Store())
+                    g.iter = ast.Call(func=ast.Name(id="range", ctx=ast.Load()), args=[
+                        ast.Call(func=ast.Name(id="len", ctx=ast.Load()), args=[copy.deepcopy(it.args[0])], keywords=[])], keywords=[])
+                    ast.fix_missing_locations(n)
+            if len(n.generators) == 1 and isinstance(n.generators[0].iter, ast.ListComp) and isinstance(n.generators[0].target, ast.Name):
+                inner = n.generators[0].iter
+                if len(inner.generators) == 1:
+                    x = n.generators[0].target.id
+                    bound = {t.id for t in ast.walk(inner.generators[0].target) if isinstance(t, ast.Name)}
+                    free_outer = {t.id for t in ast.walk(n.elt) if isinstance(t, ast.Name)} | \
+                                 {t.id for c in n.generators[0].ifs for t in ast.walk(c) if isinstance(t, ast.Name)}
+                    if not (bound & (free_outer - {x})):
+                        sub = _Subst({x: inner.elt}, set())
+                        elt = sub.visit(copy.deepcopy(n.elt))
+                        ifs = [copy.deepcopy(c) for c in inner.generators[0].ifs] + [sub.visit(copy.deepcopy(c)) for c in n.generators[0].ifs]
+                        out = ast.ListComp(elt=elt, generators=[ast.comprehension(
+                            target=copy.deepcopy(inner.generators[0].target), iter=copy.deepcopy(inner.generators[0].iter), ifs=ifs, is_async=0)])
+                        ast.copy_location(out, n)
+                        ast.fix_missing_locations(out)
+                        return out
+            return n
+    return F().visit(copy.deepcopy(term))
+
+
+def canonical(term):
+    """fused, alpha-renamed text of a term: equal for equal values however the code spells them"""
+    return text(alpha(fuse(term)))
+
+
+def alpha(term):
+    """rename the variables bound by comprehensions to _0, _1, ... in order of appearance"""
+    counter = [0]
+
+    class A(ast.NodeTransformer):
+        def _comp(self, n):
+            mapping = {}
+            for g in n.generators:
+                for t in ast.walk(g.target):
+                    if isinstance(t, ast.Name) and t.id not in mapping:
+                        mapping[t.id] = "_%d" % counter[0]
+                        counter[0] += 1
+
+            class R(ast.NodeTransformer):
+                def visit_Name(self, m):
+                    if m.id in mapping:
+                        return ast.copy_location(ast.Name(id=mapping[m.id], ctx=m.ctx), m)
+                    return m
+            first = n.generators[0].iter
+            n2 = R().visit(n)
+            n2.generators[0].iter = first
+            return self.generic_visit(n2)
+        visit_ListComp = visit_SetComp = visit_GeneratorExp = visit_DictComp = _comp
+    out = A().visit(copy.deepcopy(term))
+    ast.fix_missing_locations(out)
+    return out
